@@ -589,7 +589,7 @@ reg(HistProp('C12', cfg_c12, probes_c12, quick=500, thorough=15000,
 reg(HistProp('C13', cfg_c01, probes_c13, quick=300, thorough=8000,
              rule='log-level half of C13: after every op Stat vs live count, Stat size vs sum of file sizes on disk, Size(m); '
                   'the codec half is the byte-level run (see coverage.codec)', nontrivial=has_multi_layout,
-             extra=codec.c13_extra))
+             extra=codec.c13_both))
 reg(HistProp('C15', cfg_c15, probes_c15, quick=400, thorough=12000,
              rule='Find*/Trim*Multi (and single-segment Trim*) with bounds below/inside/above the live range; scan after each; '
                   'non-trivial as C01', nontrivial=has_multi_layout, extra=crash.crash_lite))
